@@ -27,6 +27,12 @@ use tlspeer::ServerIo;
 
 const SHARE: [u8; 4] = [0xea, 3, 1, 0];
 
+/// one fast-path PDU whose bitmap update carries three rectangles k, k+1, k+2
+fn bitmap3_pdu(k: u64) -> Vec<u8> {
+    let r = |i: u64| rp::Rect { l: i as u16, t: 0, r: i as u16, b: 0, w: 1, h: 1, bpp: 32, flags: 0, data: vec![i as u8, 0, 0, 0] };
+    rp::fast_path(&[rp::FpUpdate::Bitmap(vec![r(k), r(k + 1), r(k + 2)])], false, 0)
+}
+
 fn bitmap_pdu(k: u64) -> Vec<u8> {
     rp::fast_path(&[rp::FpUpdate::Bitmap(vec![rp::Rect { l: k as u16, t: 0, r: k as u16, b: 0, w: 1, h: 1, bpp: 32, flags: 0, data: vec![k as u8, 0, 0, 0] }])], false, 0)
 }
@@ -101,6 +107,7 @@ fn run_scenario(sc: &Value, out: &mut dyn Write) {
                 let full = bitmap_pdu(k);
                 match kind {
                     "bmp" => { bytes.extend(&full); sent.push(k); }
+                    "bmp3" => { bytes.extend(&bitmap3_pdu(k)); sent.push(k); sent.push(k + 1); sent.push(k + 2); }
                     "part1" => bytes.extend(&full[..full.len() / 2]),
                     "part2" => { bytes.extend(&full[full.len() / 2..]); sent.push(k); }
                     _ => {}
